@@ -748,7 +748,7 @@ def run(ctx):
         lazy_n, join_u = 2, ["T2(2,2)"]
     else:
         tplan = [("T2(2,2)", "full", None), ("T2(2,3;-v)", "full", None), ("T2(3,2)", "shapefmt", None),
-                 ("T3c(2,2,2;<=2|8)", "full", None), ("T3(2,2,2;-v)", "shapefmt", 420)]
+                 ("T3c(2,2,2;<=2|8)", "full", None), ("T3(2,2,2;-v)", "shapefmt", 900)]
         lazy_n, join_u = 3, ["T2(2,2)", "T3(2,2,2;-v)"]
     ctx.bounds = {
         "transform": "universes (with configuration mode) %s; configurations full = {declared, estimated shape} x "
